@@ -173,6 +173,8 @@ func scalarString(v any) string {
 	}
 }
 
+var mixedArrays []string
+
 func projectTree(m map[string]any) rtNode {
 	n := rtNode{Scalars: map[string]string{}, Maps: map[string]rtNode{}, Arrays: map[string][]rtNode{}}
 	n.ID, _ = m["@id"].(string)
@@ -186,10 +188,16 @@ func projectTree(m map[string]any) rtNode {
 			n.Maps[k] = projectTree(x)
 		case []any:
 			isNodes := len(x) > 0
+			someNode := false
 			for _, e := range x {
 				if _, ok := e.(map[string]any); !ok {
 					isNodes = false
+				} else {
+					someNode = true
 				}
+			}
+			if someNode && !isNodes {
+				mixedArrays = append(mixedArrays, k) // a list of nodes holding something that is not a node (e.g. null)
 			}
 			if isNodes {
 				for _, e := range x {
@@ -269,8 +277,12 @@ func runReportTree(c rtCase) (o rtObs) {
 			}
 		}
 	}
+	mixedArrays = nil
 	t := projectTree(root)
 	o.Report = &t
+	if len(mixedArrays) > 0 {
+		o.Valid = "a list of nodes holds an entry that is not a node: " + strings.Join(mixedArrays, ",")
+	}
 	if c.Stripped {
 		c2 := c
 		c2.Lexical, c2.HasSource, c2.Stripped = nil, false, false
